@@ -4,6 +4,8 @@ import flow
 import harness as H
 import scaling_oracle as SO
 import riemann_corr as RC
+import units_oracle as UO
+import heat_corr as HC
 from props import c01
 
 UNITS = [
@@ -12,6 +14,11 @@ UNITS = [
               oracle=SO.make(SO.unit_cases)),
     flow.Unit('riemann-igeos', groups=['riemann'], props=['props/C08_riemann.v'], custom_corr=RC.unit_corr,
               oracle=SO.make(SO.unit_cases)),
+    flow.Unit('heat-rod', groups=['heat'], props=['props/C08_heat.v'], custom_corr=HC.unit_corr,
+              oracle=lambda rng, tier, reasons: UO.oracle(rng, tier, reasons, only=('Rod1D-BC1', 'Rod1D-BC3', 'Rod1D-BC4', 'PlanarSandwich', 'PlanarSandwichHot', 'PlanarSandwichHalf'))),
+    flow.Unit('all-solvers-units', groups=[], props=[], oracle=UO.oracle, always_oracle=True,
+              note='change of units on the real code for Sedov, EHEP, Mader, Kenamond 1-3, DSD cylindrical expansion, Blake, EP piston (3 models), heat rod '
+                   'family, Hutchens 1 and the general-EOS Riemann driver; dimension tables in tools/units_oracle.py (Guderley and the Coggeshall family: C10 / C01)'),
 ]
 
 
